@@ -68,6 +68,9 @@ const (
 	// messages and unions carry their length on the wire. A reader must step over them
 	// by that length, not by the size of the fields it understood: a newer writer may
 	// have sent fields this version does not know (or has deprecated).
+	// structs have no length prefix: the nested decoder reports what it consumed
+	fmtStructN                   = "{\n\tvar tmp %TYPE\n\tn, err := tmp.UnmarshalBebopN(buf[at:])\n\tif err != nil {\n\t\treturn err\n\t}\n\t%ASGN = tmp\n\tat += n\n}\n"
+	fmtMustStructN               = "{\n\tvar tmp %TYPE\n\tat += tmp.MustUnmarshalBebopN(buf[at:])\n\t%ASGN = tmp\n}\n"
 	fmtAddMessageWireLenToAt     = "at += 4 + int(iohelp.ReadUint32Bytes(buf[at:]))\n"
 	fmtAddUnionWireLenToAt       = "at += 5 + int(iohelp.ReadUint32Bytes(buf[at:]))\n"
 	fmtAddMessageWireLenToAtSafe = "if len(buf[at:]) < 4+int(iohelp.ReadUint32Bytes(buf[at:])) {\n\treturn io.ErrUnexpectedEOF\n}\n" + fmtAddMessageWireLenToAt
@@ -342,8 +345,8 @@ func (f File) typeByteReaders(gs GenerateSettings) map[string]string {
 	out["string&safe"] = "%ASGN, err = iohelp." + stringRead + "\n" + fmtErrReturn + "\n" + fmtAdd4PlusLenToAt
 
 	for _, st := range f.Structs {
-		out[st.Name] = mustMakeFormat(st.Namespace, gs) + fmtAddSizeToAt
-		out[st.Name+hintSafeKey] = makeFormat(st.Namespace, gs) + fmtErrReturn + "\n" + fmtAddSizeToAt
+		out[st.Name] = fmtMustStructN
+		out[st.Name+hintSafeKey] = fmtStructN
 	}
 	for _, msg := range f.Messages {
 		out[msg.Name] = mustMakeFormat(msg.Namespace, gs) + fmtAddMessageWireLenToAt
@@ -365,8 +368,8 @@ func (u Union) typeByteReaders(settings GenerateSettings) map[string]string {
 	for _, ufd := range u.Fields {
 		if ufd.Struct != nil {
 			st := ufd.Struct
-			out[st.Name] = mustMakeFormat(st.Namespace, settings) + fmtAddSizeToAt
-			out[st.Name+hintSafeKey] = makeFormat(st.Namespace, settings) + fmtErrReturn + "\n" + fmtAddSizeToAt
+			out[st.Name] = fmtMustStructN
+			out[st.Name+hintSafeKey] = fmtStructN
 		}
 		if ufd.Message != nil {
 			msg := ufd.Message
